@@ -1,13 +1,14 @@
 //! unitsim — unit-level deterministic simulations (maps, pools, openness, revertible buffer).
 
 pub mod mapsim;
+pub mod opensim;
 pub mod poolsim;
 pub mod ser;
 pub mod stubs;
 
 use simcore::{CheckSpec, Part};
 
-pub const PROPERTIES: &[&str] = &["C15", "C34"];
+pub const PROPERTIES: &[&str] = &["C15", "C27", "C34"];
 
 pub fn registry(property: &str) -> Option<CheckSpec> {
     match property {
@@ -22,9 +23,17 @@ pub fn registry(property: &str) -> Option<CheckSpec> {
         "C15" => Some(CheckSpec {
             property: "C15",
             level: "exploration",
-            parts: vec![Part::new(poolsim::PoolSim, 200000, 4000000)],
+            parts: vec![Part::new(poolsim::PoolSim, 2_000_000, 50_000_000)],
             assumptions: vec![
                 "the stored total of a pool is observed through its public Borsh encoding (store) / public fields (SDK)".into(),
+            ],
+        }),
+        "C27" => Some(CheckSpec {
+            property: "C27",
+            level: "exploration",
+            parts: vec![Part::new(opensim::OpenSim, 200_000, 4_000_000)],
+            assumptions: vec![
+                "unit part only: the feed price object is driven directly; the chain-level part (reports through the oracle) is checked by the chain engine".into(),
             ],
         }),
         _ => None,
